@@ -3,6 +3,7 @@
  * when compiling zv_sched.c itself (it uses the real primitives for its baton). */
 #ifndef ZV_PTHREAD_H
 #define ZV_PTHREAD_H
+#ifndef __ASSEMBLER__   /* the library build pre-includes this header for the .S file too */
 #include <pthread.h>
 #include "zv_sched.h"
 
@@ -17,4 +18,5 @@
 #define pthread_cond_broadcast(c)    zv_cond_broadcast((c))
 #define pthread_create(t, a, f, x)   zv_pthread_create((t), (a), (f), (x))
 #define pthread_join(t, r)           zv_pthread_join((t), (r))
+#endif /* __ASSEMBLER__ */
 #endif
